@@ -15,7 +15,7 @@ from ..core.runner import split_range
 from ..core.watchdog import watchdog, CaseTimeout
 from ..monitors.expect_oracles import short
 from ..workloads.gen_expect import rng_for
-from ..workloads.puppetctl import PEERS, PY
+from ..workloads.puppetctl import PEERS, PY, PeerError
 
 ID = 'C17'
 LEVEL = 'exploration'
@@ -68,6 +68,12 @@ FIXED = [
     ([['hostkey'], ['terminal'], ['password', True], ['terminal'], ['shell', 'sh', '$ ']], {}),
     ([['password', True], ['banner', 'Last login: today\n'], ['shell', 'sh', 'user@h:~$ ']], {'quiet': False, 'port': 2222}),
     ([['hostkey'], ['password', True], ['shell', 'csh', 'h> ']], {'ssh_key': True}),
+    # a narrowed password_regex (as the documentation advises) against a banner that mentions "password:", in a process
+    # in which another session has logged in with the defaults before
+    ([['banner', 'Notice: your password: expires in 3 days\n'], ['silence', 1.2], ['password', True], ['shell', 'sh', '$ ']],
+     {'password_regex': "(?i)user@h's password: ", 'earlier_login': True}),
+    ([['hostkey'], ['banner', 'password: policy reminder\n'], ['silence', 1.2], ['password', True], ['shell', 'csh', 'h% ']],
+     {'password_regex': "(?i)user@h's password: ", 'earlier_login': True, 'enc': 'utf-8'}),
     # the answers to the empty lines of the synchronisation step differ in length (a one-off notice before one prompt)
     ([['password', True], ['replies', '$ ', ['$ ', '$ ', 'You have new mail in /var/mail/me\n$ ', '$ ']], ['shell', 'sh', '$ ']], {}),
     ([['password', True], ['replies', '$ ', ['$ ', '$ ', 'h$ ', '$ ']], ['shell', 'sh', '$ ']], {}),
@@ -128,6 +134,25 @@ def one(case, acc):
         kw = dict(password=PW, login_timeout=1, auto_prompt_reset=o['auto_prompt_reset'],
                   sync_original_prompt=o['sync_original_prompt'], quiet=o['quiet'], port=o['port'], ssh_key=o['ssh_key'],
                   cmd='%s -S -E %s %s %s' % (PY, FAKE, sp, tp))
+        if o.get('password_regex'):
+            kw['password_regex'] = o['password_regex']
+            acc.count('custom_password_regex_logins')
+        if o.get('earlier_login'):
+            # another session object of this process has logged in before, with the default options: nothing of
+            # that is any business of this session
+            sp0, tp0 = os.path.join(tmp, 'script0.json'), os.path.join(tmp, 'transcript0.jsonl')
+            with open(sp0, 'w') as f:
+                json.dump([['password', True], ['shell', 'sh', '$ ']], f)
+            s0 = pxssh.pxssh(timeout=2, encoding=o['enc'])
+            try:
+                s0.login('h', username='user', password=PW, login_timeout=1, cmd='%s -S -E %s %s %s' % (PY, FAKE, sp0, tp0))
+            except ExceptionPexpect as e0:
+                raise PeerError('the earlier default login failed: %s' % e0)
+            finally:
+                try:
+                    s0.close(force=True)
+                except Exception:
+                    pass
         if o['use_config']:
             cfg = os.path.join(tmp, 'ssh_config')
             with open(cfg, 'w') as f:
@@ -171,7 +196,7 @@ def one(case, acc):
                 if e[2] == PW:
                     npw += 1
                     acc.count('password_deliveries_checked')
-                    if not re.search(r'(?i)(?:password:)|(?:passphrase for key)', since):
+                    if not re.search(o.get('password_regex') or r'(?i)(?:password:)|(?:passphrase for key)', since):
                         return v('password-sent-without-prompt', 'the fake received the password although its output since the '
                                  'previous input was %r' % since[-80:])
                     if npw > 1:
@@ -188,11 +213,21 @@ def one(case, acc):
             text = data if isinstance(data, str) else data.decode('utf-8', 'replace')
             line = text.rstrip('\r\n')
             outs = ''.join(e[2] for e in tr[prev:idx] if e[1] == 'out') if idx <= len(tr) else ''
+            # what the fake had said, at the moment of the send, since the last line it had read (the fake notes its
+            # output before writing it, so a prompt that pexpect has seen is in the transcript by now)
+            upto = tr[:idx] if idx <= len(tr) else tr
+            last_in = max([j for j, e in enumerate(upto) if e[1] in ('in', 'secret', 'cmd')] or [-1])
+            since2 = ''.join(e[2] for e in upto[last_in + 1:] if e[1] == 'out')
             if line == PW:
                 npw2 += 1
                 acc.count('password_deliveries_checked')
                 if npw2 > 1:
                     return v('password-sent-twice', 'login() handed the password to send() %d times' % npw2)
+                if not re.search(o.get('password_regex') or r'(?i)(?:password:)|(?:passphrase for key)', since2):
+                    return v('password-sent-without-prompt', 'login() sent the password when the fake had said, since the last '
+                             'line it read, only %r' % since2[-80:])
+            if line == 'yes' and not re.search(r'(?i)are you sure you want to continue connecting', since2):
+                return v('yes-sent-without-hostkey-question', 'at the moment of the send the fake had said %r' % since2[-80:])
             prev = idx
         shell = any(e[1] == 'shell-entered' for e in tr)
         pset = any(e[1] == 'prompt-set' for e in tr)
